@@ -366,6 +366,10 @@ func runC10(o *hx.Out, r *hx.Rand, thorough bool) {
 				s.isolated = false
 				desc["metadata_changed_after_NewStream_seen_by_handler"] = bad
 			}
+			if bad := mdReusedObjectProbe(); bad != "" {
+				s.isolated = false
+				desc["long_lived_MD_object_changed_between_calls"] = bad
+			}
 		}
 		if !ran {
 			// a cancelled caller context may end the call before the handler starts: nothing to compare
@@ -461,6 +465,48 @@ func mdSnapshotProbe() string {
 		runtime.KeepAlive(cs)
 		if got != fmt.Sprint("value-", i) {
 			return got
+		}
+	}
+	return ""
+}
+
+// mdReusedObjectProbe: every call delivers the metadata its OWN context carries when the call is made: a caller
+// that keeps one MD object, changes an entry between calls and attaches it again gets the new value delivered
+func mdReusedObjectProbe() string {
+	var saw string
+	c := &inprocgrpc.Channel{}
+	c.RegisterService(hx.Desc(hx.SvcName), &hx.Svc{
+		Unary: func(ctx context.Context, req *hx.Msg) (*hx.Msg, error) {
+			in, _ := metadata.FromIncomingContext(ctx)
+			saw = strings.Join(in.Get("authorization"), ",")
+			return &hx.Msg{}, nil
+		},
+		Stream: func(kind string, ss grpc.ServerStream) error {
+			in, _ := metadata.FromIncomingContext(ss.Context())
+			saw = strings.Join(in.Get("authorization"), ",")
+			return nil
+		}})
+	md := metadata.Pairs("authorization", "token-0", "other", "x")
+	for i := 0; i < 6; i++ {
+		want := fmt.Sprint("token-", i)
+		md.Set("authorization", want)
+		ctx := metadata.NewOutgoingContext(context.Background(), md)
+		saw = "(handler did not run)"
+		if i%2 == 0 {
+			if err := c.Invoke(ctx, "/verif.Svc/U", &hx.Msg{}, &hx.Msg{}); err != nil {
+				return err.Error()
+			}
+		} else {
+			cs, err := c.NewStream(ctx, hx.StreamDescOf("BD"), "/verif.Svc/BD")
+			if err != nil {
+				return err.Error()
+			}
+			cs.CloseSend()
+			cs.RecvMsg(&hx.Msg{})
+			runtime.KeepAlive(cs)
+		}
+		if saw != want {
+			return fmt.Sprintf("call %d carried %s, the handler saw %s", i, want, saw)
 		}
 	}
 	return ""
